@@ -184,6 +184,10 @@ def run(ctx, model=None):
     _r0 = random.Random(ctx.seed + 61)
     _an0.optimized_interpreter(ctx, [gen.stopping_game(_r0, dead_frac=0.6) for _ in range(10)], "complete-result")
     rng = random.Random(ctx.seed * 3010349 + 6)
+    import analysis as _r5
+    _r5rng = random.Random(ctx.seed + 555)
+    _r5.round5_passes(ctx, _r5rng, [gen.stopping_game(_r5rng, extra_finals=0.25) for _ in range(3 if ctx.quick() else 40)] +
+                      [gen.slow_cycle_game(_r5rng), gen.decimal_tie_game(_r5rng)], "complete-result", fields=None)
     specials = tiny_direct_games()
     for g in specials:
         check_case(ctx, g, model)
@@ -245,6 +249,9 @@ def known_findings(ctx):
 
 
 def replay(ctx, viol):
+    import analysis as _r5
+    if _r5.replay_round5(ctx, viol, fields=None):
+        return
     g = viol["input"]["game"]
     g["transition_list"] = [[tuple(t) for t in row] for row in g["transition_list"]]
     check_case(ctx, g, None)
